@@ -216,6 +216,16 @@ def isPinv (n : Nat) (L R : Mat) : Bool :=
   let RL := toFun (mmul n R L)
   matEq n (toFun (mmul n LR L)) L && matEq n (toFun (mmul n RL R)) R && isSymm n LR && isSymm n RL
 
+/-- `(L R) L = L`, exactly, in the summation order of `IsGinv` -/
+def isGinv (n : Nat) (L R : Mat) : Bool :=
+  (List.range n).all fun i => (List.range n).all fun j =>
+    (sumTo n fun l => (sumTo n fun k => L i k * R k l) * L l j) == L i j
+
+/-- `L R = I − J/n`, exactly -/
+def isProj (n : Nat) (L R : Mat) : Bool :=
+  (List.range n).all fun i => (List.range n).all fun j =>
+    (sumTo n fun k => L i k * R k j) == (if i = j then 1 else 0) - 1 / (n : Rat)
+
 /-- Moore–Penrose pseudo-inverse of a symmetric matrix with kernel spanned by the constant
 vector (connected-network Laplacian): `(L + J/n)⁻¹ − J/n`, returned only if it satisfies the
 four Moore–Penrose equations exactly. -/
@@ -224,7 +234,7 @@ def pinvCert (n : Nat) (L : Mat) : Option Mat :=
   | none => none
   | some M =>
     let R := toFun (ofFun n fun i j => M i j - 1 / (n : Rat))
-    if isPinv n L R then some R else none
+    if isPinv n L R && isGinv n L R && isProj n L R then some R else none
 
 /-- total, materialised version used as the `pinv` parameter of the state machine by the
 driver (`[]` reads as the zero matrix when no certified pseudo-inverse exists) -/
@@ -259,5 +269,32 @@ def connected (n : Nat) (adj : Adj) : Bool :=
     (List.range n).filter fun j => seen.contains j || seen.any fun i => adj i j || adj j i
   let final := (List.range n).foldl (fun seen _ => grow seen) [0]
   n == 0 || final.length == n
+
+end Pyunicorn.Circuit
+
+namespace Pyunicorn.Circuit
+/-! ### specification vocabulary (propositions used by the theorems) -/
+
+def SymmOn (n : Nat) (A : Mat) : Prop := ∀ i j, i < n → j < n → A i j = A j i
+
+/-- `R` is a generalised inverse of `L`: `(L R) L = L` on the leading `n × n` block
+(first Moore–Penrose equation; `np.linalg.pinv` satisfies all four) -/
+def IsGinv (n : Nat) (L R : Mat) : Prop :=
+  ∀ i j, i < n → j < n → sumTo n (fun l => (sumTo n fun k => L i k * R k l) * L l j) = L i j
+
+/-- `v` are node potentials of a unit current entering at `a` and leaving at `b`:
+`(L v)_i = δ_ia − δ_ib` (Kirchhoff's current law with Ohm's law) -/
+def IsPot (n : Nat) (L : Mat) (v : Vec) (a b : Nat) : Prop :=
+  ∀ i, i < n → sumTo n (fun j => L i j * v j) = (if i = a then 1 else 0) - (if i = b then 1 else 0)
+
+/-- `L R = I − J/n`: `R` inverts `L` on the complement of the constant vectors (what the
+pseudo-inverse of a connected network's Laplacian does) -/
+def IsProj (n : Nat) (L R : Mat) : Prop :=
+  ∀ i j, i < n → j < n → sumTo n (fun k => L i k * R k j) = (if i = j then 1 else 0) - 1 / (n : Rat)
+
+/-- cut-connectivity: every proper non-empty node set `S` has a link leaving it -/
+def CutConnected (n : Nat) (c : Mat) : Prop :=
+  ∀ S : Nat → Bool, (∃ i, i < n ∧ S i = true) → (∃ j, j < n ∧ S j = false) →
+    ∃ i j, i < n ∧ j < n ∧ S i = true ∧ S j = false ∧ c i j ≠ 0
 
 end Pyunicorn.Circuit
